@@ -84,7 +84,9 @@ Context::~Context()
     delete _returned;
   _returned = nullptr;
 
-  if (_fctm->getRoot() == this)
+  /* only the root context own the manager: a child cannot ask the manager,
+   * that could have been deleted by purging the root */
+  if (_root == this)
     delete _fctm;
   _fctm = nullptr;
 
